@@ -16,6 +16,7 @@ CONSTANTS
   MaxDepth = 2
   MaxOps = 1
   WithDrop = FALSE
+  RemovedMayBeSkipped = FALSE
   Probes = 1
   D = 3
 INIT Init
